@@ -59,8 +59,9 @@ def _index_map_corner(doc):
 
 
 def _has_elem_prio(doc):
-    """a list element carrying a priority tag of its own"""
-    return any(n['t'] == 'seq' and any(c.get('prio') is not None for c in n['items']) for _, n in emit.walk(doc))
+    """a list element - or something inside a list element - carrying a priority tag of its own (what decides which elements of
+    the older list survive a deleting newer list, and so at which position they end up)"""
+    return any(n['t'] == 'seq' and any(x.get('prio') is not None for c in n['items'] for _, x in emit.walk(c)) for _, n in emit.walk(doc))
 
 
 def _strip_elem_prio(doc):
@@ -68,7 +69,8 @@ def _strip_elem_prio(doc):
     for _, n in emit.walk(d):
         if n['t'] == 'seq':
             for c in n['items']:
-                c.pop('prio', None)
+                for _, x in emit.walk(c):
+                    x.pop('prio', None)
     return d
 
 
